@@ -287,4 +287,311 @@ Section Sim.
       + intro E. destruct (split_lines_nonnil Hne E).
     - intro E. unfold core_plan_on. rewrite E. reflexivity.
   Qed.
+
+  (* ---------------- plan algebra ---------------- *)
+  Lemma ranges_of_app : forall a b p, ranges_of p (a ++ b) = ranges_of p a ++ ranges_of (p + length (concat a)) b.
+  Proof.
+    induction a as [|x a IH]; intros b p; cbn [app ranges_of concat length]; [now rewrite Nat.add_0_r|].
+    rewrite IH, app_length, Nat.add_assoc. reflexivity.
+  Qed.
+
+  Definition mkc (P : nat) (x : nat * nat * bytes) : call := mk_call true KOther (fst (fst x)) (snd (fst x)) false P.
+
+  Lemma ranges_forall (P : bytes -> Prop) ls p : Forall P ls -> Forall (fun x => P (snd x)) (ranges_of p ls).
+  Proof. intro H. rewrite <- (ranges_of_lines p ls) in H. now rewrite Forall_map in H. Qed.
+
+  (* a run of result lines in front (inverted fast path: all carry the position of the line after them) *)
+  Lemma plan_calls_pre f n : forall pre rs, Forall (fun x => f (snd x) = true) pre ->
+    plan_calls f true false n (pre ++ rs) =
+    (map (mkc (snd (plan_calls f true false n rs))) pre ++ fst (plan_calls f true false n rs),
+     snd (plan_calls f true false n rs)).
+  Proof.
+    induction 1 as [|[[a b] l] pre Hh _ IH]; [cbn [app map]; now destruct (plan_calls f true false n rs)|].
+    cbn [app plan_calls]. rewrite IH. cbn [snd] in Hh. rewrite Hh. reflexivity.
+  Qed.
+
+  (* non-result lines in front, no passthru: no calls *)
+  Lemma plan_calls_skip f fi n : forall pre rs, Forall (fun x => f (snd x) = false) pre ->
+    fst (plan_calls f fi false n (pre ++ rs)) = fst (plan_calls f fi false n rs).
+  Proof.
+    induction 1 as [|[[a b] l] pre Hh _ IH]; [reflexivity|].
+    cbn [app plan_calls]. destruct (plan_calls f fi false n (pre ++ rs)) as [x y]. cbn [snd] in Hh. rewrite Hh.
+    cbn [fst app] in *. exact IH.
+  Qed.
+
+  Lemma run_calls_app bin a : forall x cb w,
+    run_calls snk mode bin a s (x ++ nil) cb w = run_calls snk mode bin a s x cb w.
+  Proof. intros. now rewrite app_nil_r. Qed.
+
+  Lemma run_calls_app2 bin a : forall x y cb w,
+    run_calls snk mode bin a s (x ++ y) cb w =
+    match run_calls snk mode bin a s x cb w with
+    | (None, cb', w') => run_calls snk mode bin a s y cb' w'
+    | z => z
+    end.
+  Proof.
+    induction x as [|c x IH]; intros y cb w; [reflexivity|].
+    cbn [app run_calls]. destruct (sink_call snk mode bin a s c cb w) as [[g cb1] w1].
+    destruct g; [apply IH|reflexivity].
+  Qed.
+
+  Lemma next_line_pos p l : next_line cfg s p l -> 0 < length l.
+  Proof.
+    intros (_ & _ & [(body & -> & _)|((Hne & _) & _)]); [rewrite app_length; cbn; lia|].
+    destruct l; [congruence|cbn; lia].
+  Qed.
+
+  (* the `while let Some(line)` loop of match_by_line_fast_invert over the lines [pre], laid out from p *)
+  Lemma matched_sim : forall pre c p en fuel, lines_seq cfg s pre p -> en = p + length (concat pre) ->
+    en <= length s -> length pre < fuel -> Inv c ->
+    sim_post c false (matched_loop cfg r true fuel c s p en)
+      (run_calls snk mode true 0 s (map (mkc (pos c)) (ranges_of p pre)) (bin_off c) (W c)).
+  Proof.
+    induction pre as [|l pre IH]; intros c p en fuel Hseq Hen Hle Hf Hi;
+      (destruct fuel as [|f]; [cbn in Hf; lia|]); cbn [matched_loop]; unfold ltb_.
+    - cbn [concat length] in Hen. rewrite line_step_end by lia. cbn [ranges_of map run_calls].
+      exists true, c. split; [reflexivity|]. fin.
+    - destruct Hseq as (Hn & _ & Hseq). cbn [concat] in Hen. rewrite app_length in Hen.
+      rewrite (line_step_seq cfg s p l en Hn) by lia.
+      cbn [ranges_of map]. unfold mkc at 1. cbn [fst snd run_calls].
+      destruct (sm_sim c p (p + length l) (pos c) Hi) as (b1 & c1 & E1 & E2 & P1 & I1).
+      rewrite E1, E2. destruct b1; cbn [andthen].
+      + cbn [length] in Hf.
+        destruct (IH c1 (p + length l) en f Hseq ltac:(lia) Hle ltac:(lia) I1) as (b & c' & E3 & E4).
+        rewrite P1 in E4. exists b, c'. split; [exact E3|].
+        destruct (run_calls snk mode true 0 s _ (bin_off c1) (W c1)) as [[[cl|] cb'] w'].
+        * exact E4.
+        * destruct E4 as (? & ? & ? & ? & E5). fin; try congruence.
+      + exists false, c1. split; [reflexivity|]. fin.
+  Qed.
+
+  (* ---------------- the fast line path ---------------- *)
+  Definition conv (fo : fast_outcome) : SearcherCore.outcome :=
+    match fo with
+    | FOK FContinue c => OK true c
+    | FOK FStop c => OK false c
+    | FOK FSwitchToSlow _ => FUEL
+    | FERR c => ERR c
+    | FFUEL => FUEL
+    end.
+
+  Hypothesis Hpt : pt = false.
+  Hypothesis Hfs : find_spec cfg M s.
+
+  Lemma finish_fast c : Inv c ->
+    lift_stop (after_context_by_line cfg r true c s (length s)) (fun c => FOK FContinue (set_pos c (length s)))
+    = FOK FContinue (set_pos c (length s)).
+  Proof. intro Hi. rewrite after_none by exact Hi. reflexivity. Qed.
+
+  Lemma max_context0 : max_context cfg = 0.
+  Proof. unfold max_context. rewrite Hb, Ha. reflexivity. Qed.
+
+  (* not inverted: the line found is the next result *)
+  Lemma fast_sim_ni : c_invert cfg = false ->
+    forall fuel ls c p, pos c = p -> lines_at cfg s ls p -> (ls <> [] -> bnd cfg s p) -> Inv c -> length ls < fuel ->
+    sim_post c true (conv (fast_loop cfg M r true fuel c s))
+      (run_calls snk mode true 0 s (fst (plan_calls sc false false (length s) (ranges_of p ls))) (bin_off c) (W c)).
+  Proof.
+    intro Hinv.
+    assert (Hsc : forall l, sc l = pmatch cfg M l).
+    { intro l. unfold scf, pmatch. rewrite Hinv. now destruct (m_is_match M _). }
+    induction fuel as [|f IH]; intros ls c p Hp Hat Hbnd Hi Hf; [lia|].
+    cbn [fast_loop]. destruct ls as [|l0 ls'].
+    - cbn [lines_at] in Hat. replace (Nat.leb (length s) (pos c)) with true by (symmetry; apply Nat.leb_le; lia).
+      rewrite finish_fast by exact Hi. cbn [conv ranges_of plan_calls fst run_calls].
+      exists true, (set_pos c (length s)). split; [reflexivity|]. fin.
+    - pose proof (next_line_pos p l0 (proj1 Hat)) as Hl0. pose proof (proj1 (proj2 (proj1 Hat))) as Hl0b.
+      replace (Nat.leb (length s) (pos c)) with false by (symmetry; apply Nat.leb_gt; lia).
+      rewrite Hs, Hinv. cbn [andb].
+      pose proof (Hfs c (l0 :: ls') p Hp Hat (Hbnd ltac:(discriminate))) as F.
+      destruct (find_by_line_fast cfg M c s) as [[[q e]|]|]; [| |contradiction].
+      + destruct F as (pre & l & post & Els & Hpre & Hl & -> & ->). rewrite Els in *.
+        destruct (lines_at_split cfg s pre l post p Hat) as (Hseq & Htpre & Hnl & Htl & Hpost).
+        rewrite max_context0. cbn [Nat.ltb Nat.leb].
+        rewrite ranges_of_app, plan_calls_skip
+          by (apply (ranges_forall (fun l => sc l = false)); revert Hpre; apply Forall_impl; intros x Hx; now rewrite Hsc).
+        cbn [ranges_of plan_calls]. rewrite Hsc, Hl.
+        destruct (plan_calls sc false false (length s) (ranges_of (p + length (concat pre) + length l) post))
+          as [rest nxt] eqn:Epc.
+        cbn [andb fst run_calls].
+        destruct (sm_sim (set_pos (set_has_matched c) (p + length (concat pre) + length l))
+                    (p + length (concat pre)) (p + length (concat pre) + length l)
+                    (p + length (concat pre) + length l) Hi) as (b1 & c1 & E1 & E2 & P1 & I1).
+        rewrite E1.
+        change (bin_off c) with (bin_off (set_pos (set_has_matched c) (p + length (concat pre) + length l))).
+        change (W c) with (W (set_pos (set_has_matched c) (p + length (concat pre) + length l))).
+        rewrite E2. destruct b1; cbn [lift_stop].
+        * assert (Hbp : post <> [] -> bnd cfg s (p + length (concat pre) + length l)).
+          { intro Hne. apply bnd_next; [exact Hnl|exact (Htl Hne)]. }
+          assert (Hlen : length post < f).
+          { rewrite app_length in Hf. cbn [length] in Hf. lia. }
+          specialize (IH post c1 (p + length (concat pre) + length l) P1 Hpost Hbp I1 Hlen). rewrite Epc in IH. cbn [fst] in IH.
+          destruct IH as (b & c' & E3 & E4). exists b, c'. split; [exact E3|].
+          destruct (run_calls snk mode true 0 s rest (bin_off c1) (W c1)) as [[[cl|] cb'] w'].
+          -- exact E4.
+          -- destruct E4 as (? & ? & ? & ? & E5). fin.
+        * cbn [conv]. exists false, c1. split; [reflexivity|]. fin.
+      + rewrite <- (app_nil_r (l0 :: ls')), ranges_of_app, plan_calls_skip
+          by (apply (ranges_forall (fun l => sc l = false)); revert F; apply Forall_impl; intros x Hx; now rewrite Hsc).
+        cbn [ranges_of plan_calls fst run_calls].
+        rewrite finish_fast by exact Hi. cbn [conv].
+        exists true, (set_pos c (length s)). split; [reflexivity|]. fin.
+  Qed.
+
+  (* inverted: the lines before the line found are the results; pos is already past the line found *)
+  Lemma fast_sim_inv : c_invert cfg = true ->
+    forall fuel ls c p, pos c = p -> lines_at cfg s ls p -> (ls <> [] -> bnd cfg s p) -> Inv c -> length ls < fuel ->
+    sim_post c true (conv (fast_loop cfg M r true fuel c s))
+      (run_calls snk mode true 0 s (fst (plan_calls sc true false (length s) (ranges_of p ls))) (bin_off c) (W c)).
+  Proof.
+    intro Hinv.
+    assert (Hsc : forall l, sc l = negb (pmatch cfg M l)).
+    { intro l. unfold scf, pmatch. rewrite Hinv. now destruct (m_is_match M _). }
+    induction fuel as [|f IH]; intros ls c p Hp Hat Hbnd Hi Hf; [lia|].
+    cbn [fast_loop]. destruct ls as [|l0 ls'].
+    - cbn [lines_at] in Hat. replace (Nat.leb (length s) (pos c)) with true by (symmetry; apply Nat.leb_le; lia).
+      rewrite finish_fast by exact Hi. cbn [conv ranges_of plan_calls fst run_calls].
+      exists true, (set_pos c (length s)). split; [reflexivity|]. fin.
+    - pose proof (next_line_pos p l0 (proj1 Hat)) as Hl0. pose proof (proj1 (proj2 (proj1 Hat))) as Hl0b.
+      replace (Nat.leb (length s) (pos c)) with false by (symmetry; apply Nat.leb_gt; lia).
+      rewrite Hs, Hinv. cbn [andb]. unfold match_by_line_fast_invert.
+      pose proof (Hfs c (l0 :: ls') p Hp Hat (Hbnd ltac:(discriminate))) as F.
+      destruct (find_by_line_fast cfg M c s) as [[[q e]|]|]; [| |contradiction].
+      + destruct F as (pre & l & post & Els & Hpre & Hl & -> & ->). rewrite Els in *.
+        destruct (lines_at_split cfg s pre l post p Hat) as (Hseq & Htpre & Hnl & Htl & Hpost).
+        rewrite Hs. cbn [andb]. rewrite Hp.
+        set (e := p + length (concat pre) + length l) in *.
+        assert (Hbp : post <> [] -> bnd cfg s e).
+        { intro Hne. apply bnd_next; [exact Hnl|exact (Htl Hne)]. }
+        assert (Hlen : length post < f).
+        { rewrite app_length in Hf. cbn [length] in Hf. lia. }
+        rewrite ranges_of_app.
+        rewrite plan_calls_pre
+          by (apply (ranges_forall (fun l => sc l = true)); revert Hpre; apply Forall_impl; intros x Hx;
+              now rewrite Hsc, Hx).
+        cbn [ranges_of plan_calls]. fold e. rewrite Hsc, Hl. cbn [negb].
+        destruct (plan_calls sc true false (length s) (ranges_of e post)) as [rest nxt] eqn:Epc.
+        cbn [fst snd app].
+        assert (Hcont : forall c1, Inv c1 -> pos c1 = e ->
+                  sim_post c1 true (conv (fast_loop cfg M r true f c1 s))
+                    (run_calls snk mode true 0 s rest (bin_off c1) (W c1))).
+        { intros c1 I1 P1. specialize (IH post c1 e P1 Hpost Hbp I1 Hlen). rewrite Epc in IH. exact IH. }
+        destruct pre as [|l1 pre'].
+        * cbn [concat length ranges_of map app]. rewrite Nat.add_0_r, Nat.leb_refl. cbn [lift_stop].
+          destruct (Hcont (set_pos c e) Hi eq_refl) as (b & c' & E3 & E4).
+          exists b, c'. split; [exact E3|].
+          change (bin_off c) with (bin_off (set_pos c e)). change (W c) with (W (set_pos c e)).
+          destruct (run_calls snk mode true 0 s rest _ _) as [[[cl|] cb'] w'].
+          -- exact E4.
+          -- destruct E4 as (? & ? & ? & ? & E5). fin.
+        * pose proof (next_line_pos p l1 (proj1 Hseq)) as Hl1.
+          assert (Hq : p < p + length (concat (l1 :: pre'))).
+          { cbn [concat]. rewrite app_length. lia. }
+          replace (Nat.leb (p + length (concat (l1 :: pre'))) p) with false by (symmetry; apply Nat.leb_gt; lia).
+          rewrite after_none by exact Hi. cbn [andthen]. rewrite before_none. cbn [andthen].
+          pose proof (proj1 (proj2 Hnl)) as Hqe.
+          pose proof (lines_seq_count cfg s _ _ Hseq) as Hcnt.
+          destruct (matched_sim (l1 :: pre') (set_has_matched (set_pos c e)) p (p + length (concat (l1 :: pre')))
+                      (S (length s)) Hseq eq_refl ltac:(lia) ltac:(lia) Hi) as (b1 & c1 & E1 & E2).
+          rewrite E1. rewrite run_calls_app2.
+          change (pos (set_has_matched (set_pos c e))) with e in E2.
+          change (bin_off (set_has_matched (set_pos c e))) with (bin_off c) in E2.
+          change (W (set_has_matched (set_pos c e))) with (W c) in E2.
+          destruct (run_calls snk mode true 0 s (map (mkc e) (ranges_of p (l1 :: pre'))) (bin_off c) (W c))
+            as [[[cl|] cb1] w1].
+          -- destruct E2 as (-> & -> & -> & E5). cbn [lift_stop conv]. exists false, c1. split; [reflexivity|]. fin.
+          -- destruct E2 as (-> & -> & -> & I1 & E5). cbn [lift_stop].
+             destruct (Hcont c1 I1 E5) as (b & c' & E3 & E4).
+             exists b, c'. split; [exact E3|].
+             destruct (run_calls snk mode true 0 s rest _ _) as [[[cl|] cb'] w'].
+             ++ exact E4.
+             ++ destruct E4 as (? & ? & ? & ? & E6). fin.
+      + rewrite Hp.
+        replace (Nat.leb (length s) p) with false by (symmetry; apply Nat.leb_gt; lia).
+        rewrite after_none by exact Hi. cbn [andthen]. rewrite before_none. cbn [andthen].
+        rewrite <- (app_nil_r (l0 :: ls')), ranges_of_app.
+        rewrite plan_calls_pre
+          by (apply (ranges_forall (fun l => sc l = true)); revert F; apply Forall_impl; intros x Hx;
+              now rewrite Hsc, Hx).
+        cbn [ranges_of plan_calls fst snd]. rewrite app_nil_r.
+        pose proof (lines_at_seq cfg s _ _ Hat) as Hseq.
+        pose proof (lines_at_total cfg s _ _ Hat) as Htot.
+        pose proof (lines_seq_count cfg s _ _ Hseq) as Hcnt.
+        destruct (matched_sim (l0 :: ls') (set_has_matched (set_pos c (length s))) p (length s)
+                    (S (length s)) Hseq ltac:(lia) ltac:(lia) ltac:(lia) Hi) as (b1 & c1 & E1 & E2).
+        rewrite E1.
+        change (pos (set_has_matched (set_pos c (length s)))) with (length s) in E2.
+        change (bin_off (set_has_matched (set_pos c (length s)))) with (bin_off c) in E2.
+        change (W (set_has_matched (set_pos c (length s)))) with (W c) in E2.
+        destruct (run_calls snk mode true 0 s _ (bin_off c) (W c)) as [[[cl|] cb1] w1].
+        * destruct E2 as (-> & -> & -> & E5). cbn [lift_stop conv]. exists false, c1. split; [reflexivity|]. fin.
+        * destruct E2 as (-> & -> & -> & I1 & E5). cbn [lift_stop].
+          assert (H0f : 0 < f) by (cbn [length] in Hf; lia).
+          destruct (IH [] c1 (length s) E5 eq_refl ltac:(congruence) I1 H0f) as (b & c' & E3 & E4).
+          cbn [ranges_of plan_calls fst run_calls] in E4.
+          exists b, c'. split; [exact E3|]. destruct E4 as (? & ? & ? & ? & E6). fin.
+  Qed.
 End Sim.
+
+(* ---------------- the statement for Props/C14.v ---------------- *)
+Theorem slice_sim_proof :
+  forall (cfg : config) (M : matcher) (r : nat -> reply),
+    (forall i, r i <> Fail) ->
+    c_before cfg = 0 -> c_after cfg = 0 -> c_stop_on_nonmatch cfg = false ->
+    forall s : bytes, find_spec cfg M s ->
+    result14 (slice_by_line_run cfg M r s) =
+    Some (rev (snd (slice_run (sink_of r) (mode14 (c_binary cfg)) default_buffer_capacity s
+                      (core_plan_on (fastb cfg M) cfg (m_is_match M) s) (length s) (0, [])))).
+Proof.
+  intros cfg M r Hr Hb Ha Hs s Hfs. destruct (fastb cfg M) eqn:Ef.
+  - assert (Hpt : c_passthru cfg = false).
+    { unfold fastb, is_line_by_line_fast in Ef. destruct (c_passthru cfg); [discriminate|reflexivity]. }
+    apply run_sim; try assumption.
+    + intros c Hp Hi Hne. unfold match_by_line. rewrite (is_fast_const cfg M Hs), Ef. unfold match_by_line_fast.
+      assert (Hlen : length (split_lines (lt_byte (c_lt cfg)) s) < S (S (length s))).
+      { pose proof (split_lines_len cfg Hb Ha (lt_byte (c_lt cfg)) s). lia. }
+      assert (Hsim : sim_post s c true (conv (fast_loop cfg M r true (S (S (length s))) c s))
+                (run_calls (sink_of r) (mode14 (c_binary cfg)) true 0 s
+                   (core_plan_on true cfg (m_is_match M) s) (bin_off c) (W c))).
+      { unfold core_plan_on. rewrite Hpt, line_ranges_split0.
+        change (fun line : bytes => negb (Bool.eqb (m_is_match M (without_terminator (c_lt cfg) line)) (c_invert cfg)))
+          with (scf cfg (m_is_match M)).
+        assert (Hcases : c_invert cfg = true \/ c_invert cfg = false) by (destruct (c_invert cfg); auto).
+        destruct Hcases as [Hinv|Hinv]; rewrite Hinv; cbn [andb].
+        - apply (fast_sim_inv cfg M r Hr Hb Ha Hs s Hfs Hinv (S (S (length s))) _ c 0 Hp
+                   (lines_at_split_lines cfg Hb Ha s)); [intros _; left; reflexivity|exact Hi|exact Hlen].
+        - apply (fast_sim_ni cfg M r Hr Hb Ha Hs s Hfs Hinv (S (S (length s))) _ c 0 Hp
+                   (lines_at_split_lines cfg Hb Ha s)); [intros _; left; reflexivity|exact Hi|exact Hlen]. }
+      destruct Hsim as (b & c' & E & R). exists b, c'. split; [|exact R].
+      destruct (fast_loop cfg M r true (S (S (length s))) c s) as [[] ?| |]; cbn [conv] in E; try discriminate E; exact E.
+    + intro E. unfold core_plan_on. rewrite E. reflexivity.
+  - apply slice_sim_slow; assumption.
+Qed.
+
+From RG Require Proofs.BinaryDetectProofs.
+(* consequence inside the Core model: with Quit(b) no delivered line contains b, whatever the sink does *)
+Theorem core_quit_events_free_proof :
+  forall (cfg : config) (M : matcher) (r : nat -> reply) (b : byte),
+    (forall i, r i <> Fail) ->
+    c_before cfg = 0 -> c_after cfg = 0 -> c_stop_on_nonmatch cfg = false ->
+    c_binary cfg = SearcherCore.BQuit b ->
+    forall s : bytes, find_spec cfg M s ->
+    exists evs, slice_by_line_run cfg M r s = RunOk evs /\
+      forall e, In e evs ->
+        match e with
+        | SearcherCore.EMatched _ _ l | SearcherCore.EContext _ _ _ l => ~ In b l
+        | _ => True
+        end.
+Proof.
+  intros cfg M r b Hr Hb Ha Hs Hq s Hfs.
+  pose proof (slice_sim_proof cfg M r Hr Hb Ha Hs s Hfs) as H. rewrite Hq in H. cbn [mode14] in H.
+  destruct (slice_by_line_run cfg M r s) as [evs| |]; cbn [result14] in H; try discriminate H.
+  exists evs. split; [reflexivity|]. intros e He. injection H as H.
+  pose proof (BinaryDetectProofs.slice_quit_events_free_proof (sink_of r) (LineBufferBin.BQuit b) b
+                default_buffer_capacity s (core_plan_on (fastb cfg M) cfg (m_is_match M) s) (length s) 0 eq_refl) as Q.
+  rewrite Forall_forall in Q. specialize (Q (ev14 e)).
+  assert (Hin : In (ev14 e) (snd (slice_run (sink_of r) (LineBufferBin.BQuit b) default_buffer_capacity s
+                (core_plan_on (fastb cfg M) cfg (m_is_match M) s) (length s) (0, [])))).
+  { apply in_rev. rewrite <- H. apply in_map. exact He. }
+  specialize (Q Hin). destruct e; exact Q.
+Qed.
